@@ -87,9 +87,16 @@ class Layouts:
         self.structs = {}    # name -> [field names]  (tuple structs: '0','1',..)
         self.variant_fields = {}   # (enum, variant) -> [field names] for struct-like variants
         self.sources = {}    # name -> file it came from
+        self.consts = {}     # (module file stem, NAME) -> literal value (str / int) for simple `const NAME: T = literal;`
 
     def add_source(self, path, only=None):
         src = strip_comments(open(path).read())
+        if only is None:
+            stem = os.path.splitext(os.path.basename(path))[0]
+            for m in re.finditer(r'\bconst\s+(\w+)\s*:\s*&(?:\'static\s+)?str\s*=\s*"((?:[^"\\]|\\.)*)"\s*;', src):
+                self.consts.setdefault((stem, m.group(1)), m.group(2).encode().decode('unicode_escape'))
+            for m in re.finditer(r'\bconst\s+(\w+)\s*:\s*(?:usize|u64|u32|u16|u8|i64|i32)\s*=\s*([\d_]+)\s*;', src):
+                self.consts.setdefault((stem, m.group(1)), int(m.group(2).replace('_', '')))
         for m in re.finditer(r'\b(enum|struct)\s+(\w+)', src):
             kind, name = m.group(1), m.group(2)
             if only is not None and name not in only: continue
